@@ -265,10 +265,34 @@ func predSlice(c Case) (r Result) {
 	case "field":
 		expr, doc = "k"+se, map[string]interface{}{"k": arr}
 	case "after-projection":
-		// [*][a:b:c] on an array of two copies: a slice per element
-		expr, doc = "[*]"+se, []interface{}{arr, ref.DeepCopy(arr)}
+		// [*][a:b:c] on arrays of different lengths, the short ones first: a slice per element,
+		// each by its own length (the slice node is evaluated once per element)
+		opt := func(s string) *big.Int {
+			if s == "_" {
+				return nil
+			}
+			v, _ := new(big.Int).SetString(s, 10)
+			return v
+		}
+		elems := []interface{}{}
+		wants := []interface{}{}
+		for _, m := range []int{0, 1, n / 2, n, n} {
+			if m > n {
+				m = n
+			}
+			full := mustJSON(markerArray(m)).([]interface{})
+			elems = append(elems, full)
+			idx, _ := ref.SliceIndices(m, opt(a), opt(b), opt(cc))
+			w := make([]interface{}, 0, len(idx))
+			for _, i := range idx {
+				w = append(w, float64(100+i))
+			}
+			wants = append(wants, w)
+		}
+		expr, doc = "[*]"+se, elems
 		if !wantErr {
-			want = []interface{}{want, ref.DeepCopy(want)}
+			wants[3], wants[4] = want, ref.DeepCopy(want) // the full-length ones as the golden file says
+			want = wants
 		}
 	case "rhs":
 		// slices are projections: [a:b:c].x keeps the non-null x's
